@@ -3,7 +3,7 @@
 From Coq Require Import List NArith ZArith Bool.
 From Verif Require Import lib.Wire c08.Varint c08.SymCrypto gen.Consts_c19 c19.Model c19.Spec
      c19.Proofs_Bytes c19.Proofs_Server c19.Proofs_Step c19.Proofs_Client
-     c19.Proofs_Adv c19.Proofs_Trace c19.Proofs_Inv c19.Proofs_Mint c19.Proofs_Cache.
+     c19.Proofs_Adv c19.Proofs_Trace c19.Proofs_Inv c19.Proofs_Mint c19.Proofs_Cache c19.Proofs_Hosts.
 Import ListNotations.
 Local Open Scope N_scope.
 
@@ -148,6 +148,36 @@ Theorem c19_cached_id_was_proven : forall k h tok cp last r1 rs fresh,
   exists F V, last = Some (F, V) /\ proved k h F V cp.
 Proof. exact cached_id_was_proven_l. Qed.
 Print Assumptions c19_cached_id_was_proven.
+
+(* HEADLINE (token map across hostnames).  For every history of AuthenticatedDo calls on
+   one ClientPeerIDAuth whose requests name arbitrary hostnames (req.Host set, or empty
+   with req.URL.Host set) and are answered by arbitrary scripted servers: the history
+   monitor accepts the model - a call that runs a handshake proves the id it returns in
+   that very call for a hostname its request names, and a call that only presents a
+   stored token returns an id proven by the most recent handshake bound to a hostname
+   this request names.  [e] is the atom that stands for the empty req.Host. *)
+Theorem c19_monitor_accepts_model_history_across_hostnames : forall calls k e cs,
+  model_hcalls k [] calls = Some cs -> monitor_hcalls k e [] 0 cs = [].
+Proof. intros calls k e cs. exact (monitor_hcalls_model_l calls k e [] [] 0 cs (tmap_inv_empty k)). Qed.
+Print Assumptions c19_monitor_accepts_model_history_across_hostnames.
+
+(* whatever the token map holds for other hostnames: the id a call reports was proven
+   for the hostname of THIS request, by a signature received in this call or by the
+   handshake, bound to this hostname, that produced this hostname's entry *)
+Theorem c19_reported_id_proven_for_this_hostname : forall k m ls rh uh resps fresh p qs m',
+  tmap_inv k m ls -> auth_call_h_i k m rh uh resps fresh = Some (Some p, qs, m') ->
+  proved k rh (map atom fresh) (resp_values resps) p \/
+  exists F V, find_last rh ls = Some (F, V) /\ proved k rh F V p.
+Proof. exact reported_id_proven_for_this_hostname_l. Qed.
+Print Assumptions c19_reported_id_proven_for_this_hostname.
+
+(* a request for a hostname without an entry of its own never borrows another
+   hostname's token and identity *)
+Theorem c19_no_entry_no_borrowed_identity : forall k m rh uh resps fresh p qs m',
+  tm_get rh m = None -> auth_call_h_i k m rh uh resps fresh = Some (Some p, qs, m') ->
+  proved k rh (map atom fresh) (resp_values resps) p.
+Proof. exact no_entry_no_borrowed_identity_l. Qed.
+Print Assumptions c19_no_entry_no_borrowed_identity.
 
 (* ==== the adversary closure ========================================================= *)
 (* For every set of honest servers with secret, pairwise different HMAC secrets,
@@ -322,6 +352,34 @@ Example history_monitor_rejects_stale_cached_id :
   monitor_calls 3 7 None 0 [ex_call1; mkCall [] [mkResp 200 [] [] []] 2 [[(N_BEARER, atom 9)]]] <> [] /\
   monitor_calls 3 7 None 0 [ex_call1; mkCall [] [mkResp 200 [] [] []] 1 [[(N_BEARER, atom 9)]]] = [].
 Proof. split; vm_compute; [discriminate | reflexivity]. Qed.
+
+(* across hostnames (50 = the empty Host): a hand-built request to the server at 7 is
+   answered with a signature over hostname 7; the next hand-built request goes to the
+   server at 8, presents the stored token, and reports 1: rejected - the token was
+   obtained for hostname 7.  The same towards 7 again: accepted.  A handshake whose only
+   named hostname is 8 with a signature over 7: rejected. *)
+Example hostname_monitor_rejects_identity_borrowed_from_another_hostname :
+  monitor_hcalls 3 50 [] 0 [mkHCall 50 7 ex_call1;
+                            mkHCall 50 8 (mkCall [] [mkResp 200 [] [] []] 1 [[(N_BEARER, atom 9)]])] = [902; 9; 1; 1]%Z /\
+  monitor_hcalls 3 50 [] 0 [mkHCall 50 7 ex_call1;
+                            mkHCall 50 7 (mkCall [] [mkResp 200 [] [] []] 1 [[(N_BEARER, atom 9)]])] = [] /\
+  monitor_hcalls 3 50 [] 0 [mkHCall 7 8 ex_call1;
+                            mkHCall 8 7 (mkCall [] [mkResp 200 [] [] []] 1 [[(N_BEARER, atom 9)]])] <> [] /\
+  monitor_hcalls 3 50 [] 0 [mkHCall 8 7 ex_call1] <> [].
+Proof. repeat split; vm_compute; try reflexivity; discriminate. Qed.
+
+(* the model keeps the entries apart: after a handshake under Host 7, a request under
+   Host 8 does not present the token (it starts its own handshake and, unanswered, errs) *)
+Example model_keeps_hostnames_apart :
+  match auth_call_h_i 3 [] 7 7 (ca_resps ex_call1) (ca_fresh ex_call1) with
+  | Some (Some 1, _, m) =>
+      match auth_call_h_i 3 m 8 7 [mkResp 200 [] [] []] [400; 401], auth_call_h_i 3 m 7 8 [mkResp 200 [] [] []] [400; 401] with
+      | Some (None, _, _), Some (Some 1, [_], _) => True
+      | _, _ => False
+      end
+  | _ => False
+  end.
+Proof. vm_compute. exact I. Qed.
 
 Example client_monitor_rejects_unproven_report :
   monitor_client 3 7 [] [] 0 [mkCS 2 300 [] [] [] true 5 1 true false []] <> [].
